@@ -217,7 +217,7 @@ var sessionTextFuncs = []string{
 	// token endpoint and key material
 	"TraefikOidc.ExchangeCodeForToken", "TraefikOidc.GetNewTokenWithRefreshToken", "TraefikOidc.RevokeTokenWithProvider", "TraefikOidc.exchangeCodeForToken",
 	"TraefikOidc.exchangeTokens", "TraefikOidc.getNewTokenWithRefreshToken", "TraefikOidc.verifyToken", "fetchJWKS", "rsaJWKToPEM", "ecJWKToPEM",
-	"deriveCodeChallenge", "generateCodeVerifier", "generateNonce", "handleError"}
+	"deriveCodeChallenge", "generateCodeVerifier", "generateNonce", "handleError", "generateSecureRandomString"}
 
 func main() {
 	if len(os.Args) != 5 {
